@@ -1,10 +1,14 @@
 use crate::common::{machinery_failure, Run};
 use serde_json::Value;
 
+pub mod c26;
+pub mod c27;
 pub mod c40;
 
 pub fn run(id: &str, run: &mut Run) {
     match id {
+        "C26" => c26::run(run),
+        "C27" => c27::run(run),
         "C40" => c40::run(run),
         _ => machinery_failure(&format!("no check for property {}", id)),
     }
@@ -12,6 +16,8 @@ pub fn run(id: &str, run: &mut Run) {
 
 pub fn replay(id: &str, case: &Value, run: &mut Run) {
     match id {
+        "C26" => c26::replay(case, run),
+        "C27" => c27::replay(case, run),
         "C40" => c40::replay(case, run),
         _ => machinery_failure(&format!("no replay for property {}", id)),
     }
